@@ -713,6 +713,12 @@ func runSQL(cfg *config) {
 		"UPDATE t SET a = 1, b = 'x' WHERE c = 2", "DELETE FROM t", "CREATE TABLE (a int)", "CREATE TABLE t (a int,)", "SELECT count(*), avg(a) FROM t",
 		"SELECT avg(*) FROM t", "SELECT count(a FROM t", "SELECT a AS FROM t", "SELECT a b c FROM t", "SELECT * FROM t JOIN", "SELECT * FROM t LEFT JOIN u ON",
 		"SELECT * FROM t a JOIN t b ON a.id = b.id RIGHT JOIN c ON b.x = c.x AND c.y > 1 OR c.z = 2",
+		// a number (0, 1, beyond the list, beyond 64 bits) or another literal where a name is expected
+		"SELECT a, b FROM t ORDER BY 0", "SELECT a, b FROM t ORDER BY 1", "SELECT a, b FROM t ORDER BY 2 DESC, 0", "SELECT a, b FROM t ORDER BY 00", "SELECT a FROM t ORDER BY 3",
+		"SELECT * FROM t ORDER BY 1", "SELECT count(*) FROM t ORDER BY 1", "SELECT a FROM t ORDER BY 99999999999999999999", "SELECT a FROM t ORDER BY 'a'", "SELECT a FROM t ORDER BY TRUE",
+		"SELECT a, count(*) FROM t GROUP BY 1", "SELECT a, count(*) FROM t GROUP BY 0", "SELECT a FROM 1", "SELECT a FROM t JOIN 0 ON TRUE", "USE 0", "INSERT INTO 0 VALUES (1)",
+		"CREATE TABLE 0 (a int)", "CREATE TABLE t (0 int)", "UPDATE t SET 0 = 1", "UPDATE 0 SET a = 1", "DELETE FROM 0", "SELECT t.0 FROM t", "SELECT 0.a FROM t",
+		"SELECT count(0) FROM t", "SELECT avg(0) FROM t", "SELECT a AS 0 FROM t", "SELECT a FROM t 0", "CREATE DATABASE 0", "SELECT a FROM t ORDER BY 0 LIMIT 0 OFFSET 0",
 		// a statement and then more (the tail used to be dropped in silence)
 		"DELETE FROM p x WHERE x.id = 1", "UPDATE p SET g = 7 + 1 WHERE id = 1", "UPDATE p SET name = -5 WHERE id = 1", "SELECT * FROM t AS x WHERE x.a = 2",
 		"SELECT p.id FROM p, q WHERE p.id = q.id", "INSERT INTO p VALUES (1,'a',1) (2,'b',1)", "SELECT * FROM p WHERE name = 'it''s'", "DELETE FROM p WHERE id = 1; DELETE FROM q",
